@@ -196,6 +196,19 @@ pub fn run(tier: &str) -> SweepOut {
                 }
                 msgs.truncate(6);
             }
+            // C15: the statistics must agree with the transaction stream of these sweeps as well
+            let st = level.stats();
+            let executed: u128 = sc.orders.iter().map(|o| o_tot(o)).sum::<u128>() - left.values().sum::<u128>();
+            if st.orders_added() != sc.orders.len()
+                || st.orders_removed() != 0
+                || st.quantity_executed() as u128 != executed
+                || st.value_executed() as u128 != executed * LEVEL_PRICE as u128
+            {
+                msgs.push(format!(
+                    "C15 statistics (added={}, removed={}, qty={}, value={}) != events (added={}, removed=0, qty={executed}, value={})",
+                    st.orders_added(), st.orders_removed(), st.quantity_executed(), st.value_executed(), sc.orders.len(), executed * LEVEL_PRICE as u128
+                ));
+            }
             (visits, msgs)
         }));
         match r {
